@@ -32,7 +32,8 @@ def run_cases(work, binp, cases, d, nsh):
         for p in pending:
             e = vlib.goenv()
             e.update({"VERIF_CASES": cases, "VERIF_TRACE": p["trace"], "VERIF_JOURNAL": p["journal"],
-                      "VERIF_RESUME": str(p["resume"]), "VERIF_SHARD": "%d/%d" % (p["i"], nsh), "VERIF_SEED": str(vlib.SEED)})
+                      "VERIF_RESUME": str(p["resume"]), "VERIF_SHARD": "%d/%d" % (p["i"], nsh), "VERIF_SEED": str(vlib.SEED),
+                      "VERIF_SITES": os.path.join(d, "sites%d.txt" % p["i"])})
             out = open(os.path.join(d, "o%d.txt" % p["i"]), "w")
             cmd = [binp, "-test.run", "^TestVerifWireCases$", "-test.timeout", "3000s", "-test.count", "1"]
             running.append((p, subprocess.Popen(cmd, cwd=vlib.REPO, env=e, stdout=out, stderr=subprocess.STDOUT), out))
@@ -103,6 +104,11 @@ def wire_stage(work, res, tier, prefixes, replay=None):
             log("generated %d cases, executing all" % n)
     nsh = max(1, min(vlib.NCPU, 16, total // 50 + 1))
     run_cases(work, binp, cases, d, nsh)
+    sites = res.cov.setdefault("_sites", set())
+    for i in range(nsh):
+        sp = os.path.join(d, "sites%d.txt" % i)
+        if os.path.exists(sp):
+            sites.update(x for x in open(sp).read().split("\n") if x)
     trace = os.path.join(d, "trace.ndjson")
     with open(trace, "w") as out:
         for i in range(nsh):
